@@ -73,6 +73,7 @@ type lbEngine struct {
 	scanFns    map[string]bool // functions whose loops are byte scans: checked for unit steps and exhaustive exits
 	progress   bool            // C03/R7: every loop iteration advances the cursor or a counter
 	tiling     bool            // C13/R4: track the Space/Raw/Pos/End stores of tokens and comments
+	foldEq     bool            // C16/R3: char.EqualFold returns true only for equal lengths, after the last index
 	split      bool            // C12/R5: SplitRawStatements over the contract of Lexer.NextToken (token fields as atoms)
 	tokLen     bool            // C06/R3: track Token.Kind / Token.AsString stores of the token reader; <param> spans '@' + its name
 	shallow    bool            // calls to lexer methods only move the cursor forward (not followed)
@@ -857,6 +858,9 @@ func (e *lbEngine) dropDead(fn *ssa.Function, b *ssa.BasicBlock, s *lstate) *lst
 	if s == nil {
 		return nil
 	}
+	if e.foldEq {
+		return s // a two-loop function whose returns are judged on values that are dead there
+	}
 	live := e.liveIn(fn)[b]
 	drop := map[atomID]bool{}
 	for a := range s.atomsOf() {
@@ -1398,6 +1402,36 @@ func (e *lbEngine) execBlock(in *lbInst, b *ssa.BasicBlock, st *lstate, rets *[]
 					}
 					e.requireAt(st, in.fn, x, "C13/R4", funcName(in.fn)+": on return Token."+strings.TrimSuffix(strings.TrimSuffix(f, "Lo"), "Hi")+" has been recorded (Space and Raw unless the token is <bad>)",
 						[]string{"the field is stored on this path"}, []lin{need})
+				}
+			}
+			if e.foldEq && e.record && len(e.frames) == 1 && len(x.Results) == 1 {
+				if cb, isC := constBool(x.Results[0]); !isC || cb {
+					var strs []*ssa.Parameter
+					for _, p := range in.fn.Params {
+						if isStringType(p.Type()) {
+							strs = append(strs, p)
+						}
+					}
+					if len(strs) == 2 {
+						a, b := e.lenLin(in, strs[0]), e.lenLin(in, strs[1])
+						e.requireAt(st, in.fn, x, "C16/R3", funcName(in.fn)+": true is returned only for strings of equal length", []string{"len(s) <= len(t)", "len(s) >= len(t)"}, []lin{b.sub(a), a.sub(b)})
+						// every index was looked at: some integer loop variable of the function has reached len(s)
+						reached := false
+						for _, bb := range in.fn.Blocks {
+							for _, ins := range bb.Instrs {
+								if phi, ok := ins.(*ssa.Phi); ok && isCountType(phi.Type()) {
+									if l, ok := e.linear(in, phi); ok && st.proves(e.at, lfact{l: l.sub(a)}) {
+										reached = true
+									}
+								}
+							}
+						}
+						need := linConst(-1)
+						if reached || st.proves(e.at, lfact{l: a.scale(-1)}) {
+							need = linConst(0)
+						}
+						e.requireAt(st, in.fn, x, "C16/R3", funcName(in.fn)+": true is returned only after the last index was compared", []string{"the loop counter has reached len(s)"}, []lin{need})
+					}
 				}
 			}
 			if e.tokLen && e.record && len(e.frames) == 1 {
@@ -2365,6 +2399,42 @@ func (e *lbEngine) splitPieceStore(in *lbInst, stp **lstate, x *ssa.Store) bool 
 	st = st.eliminate(e.at, map[atomID]bool{last: true}).eq(linAtom(last), endL)
 	*stp = st
 	return true
+}
+
+// ruleC16R3: the case-insensitive comparison behind IsKeywordLike / IsIdent is a comparison of whole strings.
+func ruleC16R3(w *World, r *Report) {
+	const rule = "C16/R3"
+	r.rule(rule, "char.EqualFold, on which Token.IsKeywordLike and Token.IsIdent rest (C16/R1), returns true only when both strings have the same length and only after its index has run to that length (LEXBOUNDS at each return that is not the constant false): a prefix match would turn every identifier that starts with a pseudo-keyword into that keyword", 2)
+	defer debug.SetGCPercent(debug.SetGCPercent(1000))
+	root := w.fn(w.Char, "EqualFold")
+	if root == nil {
+		r.errorf("char.EqualFold not found")
+		return
+	}
+	e := w.newLexBounds()
+	e.foldEq = true
+	e.trace = verboseRule() != "" && verboseRule() != "1" && strings.HasPrefix(rule, verboseRule())
+	e.runRoot(root, nil)
+	n := 0
+	for _, ob := range e.results() {
+		if ob.rule != rule {
+			continue
+		}
+		n++
+		if ob.failed == 0 {
+			r.ok(rule, ob.construct, ob.where, fmt.Sprintf("proved in %d context(s)", ob.total))
+		} else {
+			var ds []string
+			for d := range ob.details {
+				ds = append(ds, d)
+			}
+			sort.Strings(ds)
+			r.bad(rule, ob.construct, ob.where, fmt.Sprintf("%d of %d context(s): %s", ob.failed, ob.total, strings.Join(ds, " | ")))
+		}
+	}
+	if n < 2 {
+		r.errorf("no return of char.EqualFold that can be true was reached")
+	}
 }
 
 // ruleC12R5: the arithmetic clause of C12.
